@@ -127,3 +127,18 @@ package interpreter
 //@   ensures [log-once C06] logOnce(i, err)
 //@   ensures [bounded C06] err == nil ==> old(i.ctx.Restarts) < limitations.MaxVarnishRestarts
 //@   callassert [restart-bound C06] ProcessRecv: i.ctx.Restarts <= limitations.MaxVarnishRestarts && i.ctx.Restarts == old(i.ctx.Restarts) + 1
+
+// ---- C13: call frames ------------------------------------------------------------------------------
+// A subroutine call leaves the caller's local variables and regex capture groups exactly as they
+// were: whatever the body did (its effect is inferred: it may replace both), the deferred restore
+// puts the caller's objects back on every path that reports no error.
+
+//@ func (*Interpreter).ProcessSubroutine [C13]
+//@   requires i != nil && i.ctx != nil && i.process != nil && sub != nil
+//@   ensures [locals-restored C13] err == nil ==> i.localVars == old(i.localVars)
+//@   ensures [captures-restored C13] err == nil ==> i.ctx == old(i.ctx) && i.ctx.RegexMatchedValues == old(i.ctx.RegexMatchedValues)
+
+//@ func (*Interpreter).ProcessFunctionSubroutine [C13]
+//@   requires i != nil && i.ctx != nil && i.process != nil && sub != nil && sub.Block != nil
+//@   ensures [locals-restored C13] err == nil ==> i.localVars == old(i.localVars)
+//@   ensures [captures-restored C13] err == nil ==> i.ctx == old(i.ctx) && i.ctx.RegexMatchedValues == old(i.ctx.RegexMatchedValues)
